@@ -246,6 +246,10 @@ func checkC08(c *Check) {
 					continue
 				}
 				if !isConstBool(lf.val, true) {
+					// "return err != nil" on the captured error: true only with an error recorded
+					if bo, isBO := lf.val.(*ssa.BinOp); isBO && bo.Op == token.NEQ && isNilConst(bo.Y) && Sym(bo.X) == "fv:err" {
+						continue
+					}
 					okRet = false
 					continue
 				}
@@ -302,9 +306,21 @@ func checkC08(c *Check) {
 			mism := false
 			for _, rr := range *call.(*ssa.Call).Referrers() {
 				if ifi, isIf := rr.(*ssa.If); isIf {
-					for _, in := range ifi.Block().Succs[1].Instrs {
-						if st, isSt := in.(*ssa.Store); isSt && Sym(st.Addr) == "fv:err" && definitelyNonNilErr(st.Val, ifi.Block().Succs[1], map[ssa.Value]bool{}) {
+					no := ifi.Block().Succs[1]
+					for _, in := range no.Instrs {
+						if st, isSt := in.(*ssa.Store); isSt && Sym(st.Addr) == "fv:err" && definitelyNonNilErr(st.Val, no, map[ssa.Value]bool{}) {
 							mism = true
+						}
+						// inside a transparent helper: the mismatch edge returns a non-nil error which the call site
+						// stores into the captured error
+						if ret, isRet := in.(*ssa.Return); isRet && len(ret.Results) == 1 && definitelyNonNilErr(ret.Results[0], no, map[ssa.Value]bool{}) {
+							if site := transparentSite(call.Parent()); site != nil {
+								for _, sr := range *site.(*ssa.Call).Referrers() {
+									if st, isSt := sr.(*ssa.Store); isSt && Sym(st.Addr) == "fv:err" {
+										mism = true
+									}
+								}
+							}
 						}
 					}
 				}
